@@ -341,14 +341,19 @@ Definition spec_c06 (i : sinput) (hint : range_hint) (o : sobs) : list val :=
          ++ (if is_get i then
                let (pre, term) := until_terminal (o_polls o) in
                let honest := honest_all (i_streams i) (o_calls o) in
-               match term with
-               | Some OEnd =>
-                   if honest && (sum_lens rs <=? 1048576) then
-                     check (beq_bytes (all_data pre) (mp_wire content L ehdrs rs)) "C06" "body-is-the-multipart-wire-format"
-                     ++ check (calls_eqb (o_calls o) rs) "C06" "one-read-per-range-in-request-order"
-                   else []
-               | _ => []
-               end
+               if honest && (sum_lens rs <=? 1048576) then
+                 let wire := mp_wire content L ehdrs rs in
+                 (* at every moment: a prefix of the wire format, reads in request order, no error *)
+                 check (starts_with (all_data pre) wire) "C06" "body-is-a-prefix-of-the-multipart-wire-format"
+                 ++ check (calls_eqb (o_calls o) (firstn (length (o_calls o)) rs)) "C06" "reads-follow-the-ranges-in-request-order"
+                 ++ match term with
+                    | Some OEnd =>
+                        check (beq_bytes (all_data pre) wire) "C06" "body-is-the-multipart-wire-format"
+                        ++ check (calls_eqb (o_calls o) rs) "C06" "one-read-per-range-in-request-order"
+                    | Some _ => [clause "C06" "honest-entity-but-the-multipart-body-fails"]
+                    | None => []
+                    end
+               else []
              else [])
      | _ => []
      end.
